@@ -81,7 +81,7 @@ var MutPool = []string{
 	"if", "else", "for", "while", "do", "break", "continue", "return", "throw", "try", "catch", "finally", "switch", "case", "default", "with", "debugger", "this", "null", "true", "false", "import", "export", "enum", "eval", "arguments", "undefined",
 	"(", ")", "[", "]", "{", "}", ";", ",", ".", "?.", "...", "=>", "=", "==", "===", "+", "-", "*", "/", "%", "**", "++", "--", "!", "~", "?", ":", "&&", "||", "??", "&&=", "||=", "??=", "+=", "<", ">", "<<", ">>>", "&", "|", "^", "#", "#priv", "@", "\\",
 	"0", "1", "-1", "0.5", "1e3", "0x", "0x1F", "0b", "0b12", "0o8", "08", "1_", "1__0", "1n", "0n", ".5", "5.", "1e", "1e+", "0.0.0",
-	"\"", "'", "`", "${", "\"\\u", "\"\\u{", "\"\\u{110000}\"", "\"\\u{10FFFF}\"", "\\u{10FFFF}", "`\\u{10ffff}`", "\"\\ud800\"", "\"\\x\"", "'\\\n'", "`${", "`${`${`", "\\u0061", "\\u{61}", "a\\u0062c", "\\u", "/", "/a/", "/a/gg", "/[/", "/(?<n>a)\\k<n>/", "/(?<n>a)(?<n>b)/", "/\\u{110000}/u", "/a/u", "/(?:/", "/*", "*/", "//", "<!--", "-->",
+	"\"", "'", "`", "${", "\"\\u", "\"\\u{", "\"\\u{110000}\"", "\"\\u{10FFFF}\"", "\\u{10FFFF}", "`\\u{10ffff}`", "\"\\ud800\"", "\"\\x\"", "'\\\n'", "`${", "`${`${`", "\\u0061", "\\u{61}", "a\\u0062c", "\\u{1D400}", "a\\u{1D7D8}b", "#\\u{1D400}", "\U0001D400", "\\u", "/", "/a/", "/a/gg", "/[/", "/(?<n>a)\\k<n>/", "/(?<n>a)(?<n>b)/", "/\\u{110000}/u", "/a/u", "/(?:/", "/*", "*/", "//", "<!--", "-->",
 	"\u2028", "\u2029", "\ufeff", "\u00a0", "\n", "\r\n", "\x00", "é", "𝒳", "\U0001F600", "\xff", "\xc0\x80", "\xed\xa0\x80",
 	"label:", "a", "x", "o", "f", "arr", "async function", "async () =>", "() =>", "static {", "get a(){}", "constructor", "__proto__", "__proto__:", "'use strict'", "\"use strict\";", "let [", "for await", "of of", "async of", "yield\n", "return\n", "a\n++\nb", "if(0)function f(){}", "new.target", "import.meta", "import(", "super(", "super.", "class{", "class extends", "=>{}", "...[", "...{",
 }
